@@ -18,6 +18,7 @@
 package c12
 
 import (
+	"context"
 	"fmt"
 	"os"
 	"os/exec"
@@ -282,6 +283,8 @@ func runGated(r *ev.Run, dir string, cfg cfgT, seed uint64, policy string) (stri
 	jobs := make(chan string, 8)
 	var busy atomic.Int32
 	nJobs := 0
+	duelStarted := false
+	var firstCopier atomic.Value
 	cg := g.Derive("copies")
 	copier := func(rn *sched.Runner) {
 		for dest := range jobs {
@@ -306,7 +309,19 @@ func runGated(r *ev.Run, dir string, cfg cfgT, seed uint64, policy string) (stri
 			return
 		}
 		st.strict++
-		if busy.Load() < 2 && nJobs < 6 && cg.Chance(1, 3) {
+		start := busy.Load() < 2 && nJobs < 6 && cg.Chance(1, 3)
+		if policy == "duel" {
+			// two copies taken at the same instant on a root with file segments; one finishes at
+			// once, the other is released last (see the chooser below)
+			start = !duelStarted && len(rn.S.VerifState().RootFiles) > 0
+			if start {
+				duelStarted = true
+				nJobs++
+				busy.Add(1)
+				jobs <- filepath.Join(base, fmt.Sprintf("copy%d", nJobs))
+			}
+		}
+		if start {
 			nJobs++
 			busy.Add(1)
 			jobs <- filepath.Join(base, fmt.Sprintf("copy%d", nJobs))
@@ -319,6 +334,9 @@ func runGated(r *ev.Run, dir string, cfg cfgT, seed uint64, policy string) (stri
 				for _, w := range s2.Waiters {
 					if strings.HasPrefix(w.Point, "copy.") {
 						n++
+						if policy == "duel" && firstCopier.Load() == nil {
+							firstCopier.Store(w.Actor)
+						}
 					}
 				}
 				if strict2 && n == int(busy.Load()) {
@@ -476,7 +494,28 @@ func runGated(r *ev.Run, dir string, cfg cfgT, seed uint64, policy string) (stri
 		}
 	}
 	gates := append(append([]string{}, sched.ImageGates...), "copy.readerTaken", "copy.begin", "copy.beforeCommit")
-	sc := &sched.Scenario{Dir: idxDir, KV: cfg.KV, Writers: writers, Gates: gates, G: g.Derive("sched"), MaxSteps: 900, Policy: policy,
+	var chooser func(ws []mon.Waiter, g *rng.Rand) mon.Waiter
+	if policy == "duel" {
+		chooser = func(ws []mon.Waiter, g *rng.Rand) mon.Waiter {
+			first, _ := firstCopier.Load().(string)
+			var a, b []mon.Waiter
+			for _, w := range ws {
+				if first != "" && w.Actor == first {
+					a = append(a, w)
+				} else if !strings.HasPrefix(w.Point, "copy.") {
+					b = append(b, w)
+				}
+			}
+			if len(a) > 0 {
+				return a[g.Intn(len(a))]
+			}
+			if len(b) > 0 {
+				return b[g.Intn(len(b))]
+			}
+			return ws[g.Intn(len(ws))]
+		}
+	}
+	sc := &sched.Scenario{Dir: idxDir, KV: cfg.KV, Writers: writers, Gates: gates, G: g.Derive("sched"), MaxSteps: 1200, Policy: policy, Choose: chooser,
 		Handlers: []mon.Handler{purgeAssert}, Extra: []func(*sched.Runner){copier, copier},
 		AfterOpen: func(rn *sched.Runner) { close(jobs) }}
 	final := func(rn *sched.Runner) {
@@ -595,11 +634,22 @@ func runGrowth(r *ev.Run, dir string, cfg cfgT, seed uint64, id int) {
 			r.Violation("growth/setup-error", err.Error(), nil)
 			return
 		}
+		fg := rng.New(seed).Derive(fmt.Sprintf("forcemerge-%d", mult))
 		for k := 1; k <= n; k++ {
 			if err := corpus.ApplyBatch(idx, corpus.WriterBatch(seed, 0, k, 8)); err != nil {
 				r.Violation("growth/batch-error", err.Error(), nil)
 				idx.Close()
 				return
+			}
+			if k%7 == 0 {
+				// forced merges, most of them cancelled while (or before) they run
+				to := 2 * time.Second
+				if fg.Chance(2, 3) {
+					to = time.Duration(fg.Range(20, 2500)) * time.Microsecond
+				}
+				ctx, cancel := context.WithTimeout(context.Background(), to)
+				_ = mon.ScorchOf(idx).ForceMerge(ctx, nil)
+				cancel()
 			}
 		}
 		s := mon.ScorchOf(idx)
@@ -632,6 +682,11 @@ func runGrowth(r *ev.Run, dir string, cfg cfgT, seed uint64, id int) {
 			}
 		}
 		_ = idx.Close()
+		if open := openFDsUnder(path); len(open) > 0 {
+			r.Violation("growth/fd-open-after-close", fmt.Sprintf("%s: after %d batches (with cancelled forced merges) and Close these files of the index are still open or mapped: %v", cfg.Name, n, open),
+				map[string]any{"config": cfg.Name, "seed": seed, "batches": n})
+			return
+		}
 		pts = append(pts, gp)
 		if gp.Orphans > 0 {
 			r.Violation("growth/orphan-files-at-quiescence", fmt.Sprintf("%s: %d orphan *.zap after %d batches and 3 nudges", cfg.Name, gp.Orphans, n), map[string]any{"config": cfg.Name, "seed": seed, "points": pts})
@@ -665,7 +720,7 @@ func run(r *ev.Run) {
 	}
 	dir := r.TempDir()
 	nG := r.Scale(120, 1600)
-	nGrow := r.Scale(5, 40)
+	nGrow := r.Scale(10, 60)
 	r.MinDistinct = r.Scale(50, 600)
 	cs := cfgs()
 	var wg sync.WaitGroup
@@ -682,7 +737,8 @@ func run(r *ev.Run) {
 			g := r.Rng(fmt.Sprintf("gated-%d", i))
 			cfg := cs[i%len(cs)]
 			seed := g.Uint64()
-			policy := sched.Policies[(i/len(cs))%len(sched.Policies)]
+			pols := append(append([]string{}, sched.Policies...), "duel", "duel")
+			policy := pols[(i/len(cs))%len(pols)]
 			problem, wit, st, timedOut := runGated(r, dir, cfg, seed, policy)
 			r.Case(fmt.Sprintf("gated/%s/%s/%x", cfg.Name, policy, seed), st.imagesInWindow > 0)
 			mu.Lock()
